@@ -1,7 +1,8 @@
 #!/usr/bin/env python3
-import json, glob, sys, jsonschema
+import json, glob, sys, os, jsonschema
+ROOT = os.path.dirname(os.path.dirname(os.path.abspath(__file__)))   # the tree this script belongs to (a vp-run snapshot validates its own files)
 sch = json.load(open('/root/.vp/EVIDENCE.schema.json')); bad = 0
-for f in sorted(glob.glob('/verif/evidence/*.json')):
+for f in sorted(glob.glob(os.path.join(ROOT, 'evidence', '*.json'))):
     try:
         jsonschema.validate(json.load(open(f)), sch)
     except Exception as e:
